@@ -5,12 +5,13 @@ stored nanoseconds and the location's offset; hence the oracle accepts it: the t
 (`C20_emitted_text_reads_back`, `C20_emitted_text_meets_spec`).
 
 Guards, stated as explicit hypotheses: the year shown has at most four digits (0 … 9999: beyond that RFC 3339 has no
-text), the shown wall clock is a valid one (`Wall.valid`), the offset is a whole number of minutes within ±16 h 40 min
+text; that the shown clock is a valid one is `C20_shows_valid`), the offset is a whole number of minutes within ±16 h 40 min
 (`offOf mins neg`, all real zones), nanoseconds below 10⁹.
 -/
 import TableauVerif.Props.C20Emit
 import TableauVerif.Props.C20EmitFrac
 import TableauVerif.Props.C20Days
+import TableauVerif.Props.C20Valid
 namespace TableauVerif.Props.C20EmitAll
 open TableauVerif TableauVerif.Str TableauVerif.Model.Time TableauVerif.Model.Rfc3339 TableauVerif.Spec.C20Emit
 open TableauVerif.Props.C20Emit TableauVerif.Props.C20EmitFrac
@@ -42,9 +43,9 @@ theorem offsetText_head (off : Int) : ∀ c, (offsetText off).head? = some c →
 /-- **C20_emitted_text_reads_back** -/
 theorem C20_emitted_text_reads_back (z : Zone) (t : Int) (n : Nat) (mins : Nat) (neg : Bool)
     (hn : n < 10 ^ 9) (hm : mins < 1000) (hoff : lookupOffset z t = offOf mins neg)
-    (hy0 : 0 ≤ (Spec.C20.shows z t).y) (hy1 : (Spec.C20.shows z t).y < 10000)
-    (hv : (Spec.C20.shows z t).valid = true) :
+    (hy0 : 0 ≤ (Spec.C20.shows z t).y) (hy1 : (Spec.C20.shows z t).y < 10000) :
     parse (format z t n) = some (Spec.C20.shows z t, n, lookupOffset z t) := by
+  have hv := C20Valid.C20_shows_valid z t
   generalize hw : Spec.C20.shows z t = w at *
   obtain ⟨y, mo, d, h, mi, s⟩ := w
   simp only [Wall.valid, Bool.and_eq_true, decide_eq_true_eq] at hv
@@ -85,10 +86,10 @@ theorem offOf_mod (mins : Nat) (neg : Bool) : offOf mins neg % 60 = 0 := by
 denotes the stored second and nanoseconds, with the location's offset -/
 theorem C20_emitted_text_meets_spec (z : Zone) (t : Int) (n : Nat) (mins : Nat) (neg : Bool)
     (hn : n < 10 ^ 9) (hm : mins < 1000) (hoff : lookupOffset z t = offOf mins neg)
-    (hy0 : 0 ≤ (Spec.C20.shows z t).y) (hy1 : (Spec.C20.shows z t).y < 10000)
-    (hv : (Spec.C20.shows z t).valid = true) :
+    (hy0 : 0 ≤ (Spec.C20.shows z t).y) (hy1 : (Spec.C20.shows z t).y < 10000) :
     (holds z t n (format z t n)).toString = "holds" := by
-  have hp := C20_emitted_text_reads_back z t n mins neg hn hm hoff hy0 hy1 hv
+  have hv := C20Valid.C20_shows_valid z t
+  have hp := C20_emitted_text_reads_back z t n mins neg hn hm hoff hy0 hy1
   have hmod : (lookupOffset z t % 60 != 0) = false := by rw [hoff, offOf_mod]; rfl
   have hinst := C20Days.C20_shows_asUTC z t
   have heq : ((Spec.C20.shows z t).asUTC - lookupOffset z t == t) = true := by
@@ -98,6 +99,6 @@ theorem C20_emitted_text_meets_spec (z : Zone) (t : Int) (n : Nat) (mins : Nat) 
 
 -- the guards are met (test, labelled as a test): Shanghai at the epoch
 example : (holds [(0, 28800)] 0 0 (format [(0, 28800)] 0 0)).toString = "holds" :=
-  C20_emitted_text_meets_spec [(0, 28800)] 0 0 480 false (by decide) (by decide) (by decide) (by decide) (by decide) (by decide)
+  C20_emitted_text_meets_spec [(0, 28800)] 0 0 480 false (by decide) (by decide) (by decide) (by decide) (by decide)
 
 end TableauVerif.Props.C20EmitAll
